@@ -230,6 +230,13 @@ func (r *runner) runCase(ep entryPoint, g groupSpec, b *base, c caseSpec) error 
 		r.recvKey = rk
 	}
 	prior := r.prior
+	// breadcrumb: a panic in a goroutine the code under test starts itself (the handshake functions
+	// do) cannot be recovered and kills this process; the check then classifies the crash from the
+	// dying goroutine's stack and this file
+	if crumb := os.Getenv("VERIF_CRUMB"); crumb != "" {
+		cb, _ := json.Marshal(replayObj{Group: g, Case: c, Prior: prior})
+		_ = os.WriteFile(crumb, cb, 0o644)
+	}
 	res := guarded(len(data), ep.call(g, b, r.recv, data))
 	reusable := res.Outcome == "rejected"
 	if ro, ok := ep.(readOnly); ok && ro.readOnlyCall() && res.Outcome == "accepted" {
